@@ -644,7 +644,7 @@ def random_scenario(rng, cls=None, quickness=1, **force):
         stream.append((xs, y, n_over, upd))
     kw = dict(cls=cls, d=d, names=names, n_inner=n_inner, dynamic=dynamic, alpha=alpha, companion=rng.random() < 0.3,
               prefill=(rng.choice([0, 0, 0, 2, 5]) if storage is not None else 0),
-              shuffle_keys=rng.random() < 0.3, extreme=rng.random() < 0.2, fault_type=rng.randrange(7),
+              shuffle_keys=rng.random() < 0.3, extreme=rng.random() < 0.2, fault_type=rng.randrange(len(BOOMS)),
               out_scale=rng.choice([1, 1, 1, F(1, 10 ** 10), F(1, 10 ** 6), 10 ** 7]),
               loss_scale=rng.choice([1, 1, 1, F(1, 10 ** 9), 10 ** 8]),
               bigger=(cls == "sage" and rng.random() < 0.3), storage=storage,
